@@ -2,7 +2,7 @@
 (* Trace validation for C18.  One scenario = one run of one producer        *)
 (* (EncodeCells, StyledString.Encode, the renderer) on a cell sequence:     *)
 (*   reset                       scenario start                             *)
-(*   sgr seqs / g id             the producer's output, lexed independently *)
+(*   sgr seqs / g id / gs ids    the producer's output, lexed independently *)
 (*                               (seqs: the parameter lists of consecutive  *)
 (*                               SGR control sequences)                     *)
 (*   end  prod rt in dec pan     the cells given to the producer; what each *)
@@ -49,6 +49,7 @@ Next ==
      ELSE IF failed THEN UNCHANGED <<s, failed>>
      ELSE IF e.ev = "sgr" THEN s' = StepSGRs(s, e.seqs, 1) /\ UNCHANGED failed
      ELSE IF e.ev = "g" THEN s' = StepG(s, e.g) /\ UNCHANGED failed
+     ELSE IF e.ev = "gs" THEN s' = StepGs(s, e.gs) /\ UNCHANGED failed
      ELSE IF e.ev = "end" THEN UNCHANGED s /\ EndCheck(e)
      ELSE IF e.ev = "fuzz" THEN
         /\ s' = StepSGR(InitI, e.ps)     \* the oracle itself is total: evaluating it never fails
